@@ -111,7 +111,7 @@ def make_points_recipe(rng, shape, relation, n=None):
         declared = [0, 0, 0, 0]
         mirror = False
     return {"kind": "points", "A": A, "B": B, "q": declared, "mirror": mirror,
-            "shape": shape, "relation": relation}
+            "shape": shape, "relation": relation, "as": rng.choice(["float", "float", "int", "list", "f32"])}
 
 
 def make_dimer_recipe(rng, relation):
@@ -142,8 +142,12 @@ def make_dimer_recipe(rng, relation):
         declared = [0, 0, 0, 0]
         mirror = False
     z = [rng.choice([1, 6, 7, 8]) for _ in range(n)]
-    return {"kind": "dimer", "A": pa, "B": pb, "q": declared, "mirror": mirror, "z": z,
-            "shape": shape, "relation": relation}
+    rec = {"kind": "dimer", "A": pa, "B": pb, "q": declared, "mirror": mirror, "z": z,
+           "shape": shape, "relation": relation}
+    if rng.random() < 0.5:
+        rec["used_before"] = rng.choice([[[0, 1, 0], [-1, 0, 0], [0, 0, 1]], [[1, 0, 0], [0, 0, 1], [0, -1, 0]],
+                                         [[0, 0, 1], [1, 0, 0], [0, 1, 0]], [[-1, 0, 0], [0, -1, 0], [0, 0, 1]]])
+    return rec
 
 
 # ----------------------------------------------------------------------------- driver
@@ -164,9 +168,20 @@ def drive(recipe):
     try:
         if recipe["kind"] == "points":
             t["meta"]["impl_call"] = "kabsch_rotation_matrix(A, B); reorient_points(A, B); rmsd_points(A, B)"
-            R = np.asarray(kabsch_rotation_matrix(A.copy(), B.copy()), dtype=float)
-            AR = np.asarray(reorient_points(A.copy(), B.copy()), dtype=float)
-            rm = float(rmsd_points(A.copy(), B.copy()))
+            # the same points as float64 arrays, integer arrays, nested lists of ints or float32 arrays
+            how = recipe.get("as", "float")
+
+            def arg(X):
+                if how == "int":
+                    return np.array(recipe["A" if X is A else "B"], dtype=np.int64)
+                if how == "list":
+                    return [list(map(int, p)) for p in recipe["A" if X is A else "B"]]
+                if how == "f32":
+                    return X.astype(np.float32)
+                return X.copy()
+            R = np.asarray(kabsch_rotation_matrix(arg(A), arg(B)), dtype=float)
+            AR = np.asarray(reorient_points(arg(A), arg(B)), dtype=float)
+            rm = float(rmsd_points(arg(A), arg(B)))
             if not (np.all(np.isfinite(R)) and np.all(np.isfinite(AR)) and math.isfinite(rm)):
                 t["finite"] = False
                 return t
@@ -180,8 +195,22 @@ def drive(recipe):
             from chmpy.core.dimer import Dimer
             t["meta"]["impl_call"] = "Dimer(Molecule.from_arrays(z, A), Molecule.from_arrays(z, B), transform_ab='calculate').transform_ab"
             z = np.array(recipe["z"])
-            ma = Molecule.from_arrays(z, A.copy())
-            mb = Molecule.from_arrays(z, B.copy())
+            if recipe.get("used_before"):
+                # the two molecule objects were used (centroid, distances, an earlier dimer) at another orientation and then
+                # rotated in place by a quarter turn about the origin (exact in floating point) into the position judged
+                P = np.array(recipe["used_before"], dtype=float)
+                ma = Molecule.from_arrays(z, A @ P.T)
+                mb = Molecule.from_arrays(z, B @ P.T)
+                _ = (ma.centroid, mb.centroid, ma.center_of_mass, mb.center_of_mass, ma.distance_to(mb))
+                Dimer(ma, mb, transform_ab="calculate")
+                ma.rotate(P)
+                mb.rotate(P)
+                if not (np.array_equal(ma.positions, A) and np.array_equal(mb.positions, B)):
+                    t["exc"] = "RotateInPlace"
+                    return t
+            else:
+                ma = Molecule.from_arrays(z, A.copy())
+                mb = Molecule.from_arrays(z, B.copy())
             dim = Dimer(ma, mb, transform_ab="calculate")
             tr = dim.transform_ab
             if tr is None:
